@@ -117,6 +117,13 @@ func main() {
 		fmt.Printf("TOTAL findings=%d\n", total)
 		return
 	}
+	if os.Getenv("RB_DEBUG_NARROW") != "" {
+		p, _ := Load(cfgAmd64, nil)
+		for _, l := range p.allNarrow16() {
+			fmt.Println(l)
+		}
+		return
+	}
 	if *tldump != "" {
 		p, err := Load(cfgAmd64, nil)
 		if err != nil {
